@@ -75,6 +75,18 @@ CHECKS = {
              "must be silent after histories containing failing calls.",
         note="trusted: hand-written expected value per call, LeakSanitizer; histories longer than the bound are not covered",
         design="DESIGN.md section 4, C08"),
+    "C10": dict(
+        engine="E1 space",
+        technique="bounded exhaustive enumeration of byte strings x position lattice x code lattice on the real interpreter, compared with Python bytes/base64 reference operations and round-trip relations",
+        text="All strings of length <=2 (quick) / <=3 (thorough) over 11 bytes (NUL, space, a, A, 1, comma, quote, LF, 0x7f, 0x80, 0xff) for every unary "
+             "string/bytes built-in; all strings over 4 bytes x positions {null, MIN, -1, 0..4, MAX} for lsubstr/rsubstr/substr/subraw/strpos/hash/hex/chr/at; "
+             "all (string, begin, count) triples; all (x, y, z) triples for replace/tokenize/strpos; all strings of length <=3 (4) over 0 1 . e E - + space x a "
+             "for isnum/num/int on strings and bytes; the integer and decimal lattices for str/int/num/hex round trips; all byte strings of length <=2 plus "
+             "length 3 (4) over 16 bytes for base64; every code of the integer lattice and 254..257 for chr/put/concat/insert/raw. Arguments are bound exactly "
+             "through the API and re-dumped after the calls (must be unchanged); results are read as hex. Reference: Python bytes operations, base64 and DJB "
+             "hash where the manual defines the value; otherwise totality, memory safety and the stated relations.",
+        note="trusted: Python bytes/base64 as reference; C locale; trim family only required to strip spaces and nothing but whitespace; hash of bytes >= 0x80 only required to be deterministic",
+        design="DESIGN.md section 4, C10"),
 }
 
 NOT_YET = {}
